@@ -502,14 +502,23 @@ class _TypeChecker:
         return "S"
 
     def level_s(self, mod, pats):
-        has_o2 = hasattr(mod, "Sim2") and len(self.table) <= 16  # the rebuild doubles the tracing cost
+        nleaf = len(self.table)
+        use2 = hasattr(mod, "Sim2") and nleaf <= 10  # the rebuilds more than double the tracing cost
+        has_mix = use2 and nleaf >= 2
+        has_o2 = use2 and G.has_multi_record(self.spec) and not has_mix  # m1 already uses reversed keywords
+        # compile-time constants for the mixed values m0 / m1 (even / odd leaves constant, the others run-time)
+        draws = self.case.get("draws") or []
+        cpat = (draws[0] if draws else 0) ^ int(("10" * self.w)[:self.w], 2)
+        cflat = L.flat_leaves(self.spec, L.unpack(self.spec, cpat))
+        if has_mix:
+            mod.MIX[:] = [_const_leaf(leaf, v) for v, (_, leaf, _, _) in zip(cflat, self.table)]
         vhdl = None
-        if has_o2:
+        if use2:
             try:
                 vhdl = compile_entity(mod.Sim2)
             except Rejected as r:  # the constructor path does not accept signals for this type
                 self.out.labels.append(f"S_rebuild_rejected:{r.exc_type}")
-                has_o2 = False
+                has_o2 = has_mix = False
         if vhdl is None:
             try:
                 vhdl = compile_entity(mod.Sim)
@@ -519,6 +528,8 @@ class _TypeChecker:
         self.count("S_compiled")
         if has_o2:
             self.count("S_rebuild")
+        if has_mix:
+            self.count("S_mixed")
         sim = _open_sim(self.out, vhdl, {"i": 0}, self, "S")
         if sim is None:
             return False
@@ -548,6 +559,18 @@ class _TypeChecker:
                                  f"pattern {b:0{self.w}b}: simulated to_bits(value rebuilt with keywords in reversed "
                                  f"order) = {o2:0{self.w}b}")
             exp = L.flat_leaves(self.spec, L.unpack(self.spec, b))
+            if has_mix:
+                for port, par in (("m0", 0), ("m1", 1)):
+                    flat = [cflat[j] if j % 2 == par else e for j, e in builtins.enumerate(exp)]
+                    want = L.pack(self.spec, L.unflatten(self.spec, flat))
+                    got = sim.get(port)
+                    if got is None:
+                        self.finding("to_layout", lvl, "undefined", f"pattern {b:0{self.w}b}: {port} = {sim.get_str(port)}")
+                    elif got != want:
+                        self.finding("to_layout", lvl, L.blame(self.spec, want, got),
+                                     f"pattern {b:0{self.w}b}: simulated to_bits(value with the {'even' if par == 0 else 'odd'} "
+                                     f"leaf members compile-time constants, the others run-time) = {got:0{self.w}b}, "
+                                     f"reference {want:0{self.w}b}")
             for k, (e, (path, leaf, off, lw)) in builtins.enumerate(zip(exp, self.table)):
                 got = sim.get(f"l{k}")
                 self.count("S_leaf_checks")
